@@ -132,14 +132,24 @@ def check_alias(ctx, repo, mods):
                 for ev in s.events:
                     if ev.kind == "fit" and ev.loc in site_locs and ev.origin.startswith("self.") and ev.origin[5:] in params:
                         by_param.setdefault(ev.origin, []).append(ev)
+                    elif ev.kind == "fit" and ev.loc in site_locs and ev.origin.startswith("self.") and ev.sure:
+                        # an estimator object created at class level is shared by all instances: fitting it is fitting everybody's
+                        ca = repo.lookup_class_attr(c, ev.origin[5:])
+                        if ca is not None and isinstance(ca[1], ast.Call) and not any(
+                                a_ == ev.origin[5:] for k_ in repo.mro(c) if isinstance(k_, ClassInfo) for mn_, f_ in k_.methods.items()
+                                for a_, v_, s__ in astq.self_attr_stores(f_)):
+                            by_param.setdefault(ev.origin, []).append(ev)
                 bad = False
                 for origin, evs in sorted(by_param.items()):
                     bad = True
                     key = "%s:%s:%s" % (cname, origin, meth)
                     where = "; ".join(sorted({"%s%s" % (e.loc, (" via " + "->".join(e.chain)) if e.chain else "") for e in evs}))
                     if any(e.sure for e in evs):
-                        ctx.violation("R2", key, "%s fits the constructor-parameter object %s itself (no clone): fitting mutates the user's "
-                                      "component and the estimator's parameters [%s]" % (tag, origin, where), evs[0].loc,
+                        shared = origin[5:] not in params
+                        ctx.violation("R2", key, "%s fits the %s object %s itself (no clone): %s [%s]" % (
+                            tag, "class-level (shared by all instances)" if shared else "constructor-parameter", origin,
+                            "every instance then holds the same fitted object, a later fit of another instance silently changes this one" if shared
+                            else "fitting mutates the user's component and the estimator's parameters", where), evs[0].loc,
                                       witness={"receiver": origin, "sites": where})
                     else:
                         ctx.undecided("R2", key, "receiver of a .fit call has an unknown relation to %s [%s]" % (origin, where), evs[0].loc)
@@ -316,9 +326,22 @@ class RngScope:
         key = id(target_fn)
         if key in self._indirect:
             return self._indirect[key]
+        cache = getattr(self.repo, "_c12_indirect_cache", None)
+        if cache is None:
+            cache = self.repo._c12_indirect_cache = {}
+        if key in cache:
+            self._indirect[key] = cache[key]
+            return cache[key]
         out = []
+        # cheap pre-filter: only functions that mention the target's name as a value at all
+        tname = target_fn.name
         for m in self.repo.non_test_modules():
+            if tname not in m.src:
+                continue
             for q, fn, c in functions_of(self.repo, m):
+                if not any(isinstance(x, ast.Name) and x.id == tname and isinstance(x.ctx, ast.Load) for x in ast.walk(fn)) and \
+                        not any(isinstance(x, ast.Attribute) and x.attr == tname for x in ast.walk(fn)):
+                    continue
                 refs = []
                 for blk in _stmt_lists(fn):
                     for st in blk:
@@ -367,6 +390,7 @@ class RngScope:
                                 kws[kk.value] = vv
                         out.append((m, fn, c, list(call.args), kws if ok else None))
         self._indirect[key] = out
+        cache[key] = out
         return out
 
     def param_bindings(self, fn, pname):
@@ -696,7 +720,9 @@ def check_horizon_store_table(ctx, repo):
         ctx.info("horizon store table (C20-R6) not evaluated: %r" % (e,))
         return
     known = {(k["rule"], k["construct"]) for k in report.load_known() if k.get("property") == "C20" and k.get("status", "known") == "known"}
-    bad = [r for r in sub.results if r["verdict"] == report.VIOLATION and (r["rule"], r["construct"]) not in known]
+    # only the *store* tables belong to C12 (a store changes the estimator); which inputs are rejected is C20's own clause
+    bad = [r for r in sub.results if r["verdict"] == report.VIOLATION and (r["rule"], r["construct"]) not in known
+           and r["construct"].endswith(":store-table")]
     for r in bad:
         ctx.violation("R7", "predict:horizon-store:%s" % r["construct"],
                       "predict -> _set_fh: the horizon bookkeeping deviates from its decision table (C20-%s): %s -- a fitted forecaster's stored "
@@ -1374,6 +1400,15 @@ def check_parallel_siblings(ctx, repo, mods):
             par, seq = (node.body, node.orelse) if pa else (node.orelse, node.body)
             key = "%s:parallel-vs-sequential" % q
             loc = ctx.loc(m, node)
+            direct = _collection_siblings(scope, repo, m, fn, par, seq)
+            if direct is not None:
+                diffs_ = direct
+                if diffs_:
+                    ctx.violation("R5", key, "%s: the n_jobs branch and the sequential branch build the same collection from different per-item "
+                                  "calls: %s -- the result depends on n_jobs" % (q, "; ".join(diffs_[:3])), loc, witness={"differences": diffs_})
+                else:
+                    ctx.ok("R5", key, "both branches build the collection from the same per-item call", loc)
+                continue
             try:
                 a = _norm_parallel_branch(scope, m, fn, par)
                 b = _norm_sequential_branch(seq)
@@ -1393,6 +1428,61 @@ def check_parallel_siblings(ctx, repo, mods):
 
 class Undecided(Exception):
     pass
+
+
+def _collection_siblings(scope, repo, m, fn, par, seq):
+    """`T = Parallel(...)(delayed(f)(args) for v in it)` next to `T = [f(args') for v in it]`: list of differences between the two per-item
+    calls after binding the arguments to f's parameters (missing = default); None when the branches do not have this shape."""
+    if len(par) != 1 or len(seq) != 1 or not all(isinstance(x, ast.Assign) and len(x.targets) == 1 for x in (par[0], seq[0])):
+        return None
+    pa, sa = par[0], seq[0]
+    if astq.canon(pa.targets[0]) != astq.canon(sa.targets[0]):
+        return None
+    pc, sc = pa.value, sa.value
+    if not (isinstance(pc, ast.Call) and len(pc.args) == 1 and isinstance(pc.args[0], (ast.GeneratorExp, ast.ListComp))
+            and isinstance(sc, (ast.ListComp, ast.GeneratorExp)) and len(pc.args[0].generators) == 1 and len(sc.generators) == 1):
+        return None
+    pg, sg = pc.args[0].generators[0], sc.generators[0]
+    task = pc.args[0].elt
+    if not (isinstance(task, ast.Call) and isinstance(task.func, ast.Call) and (scope.ext(m, fn, task.func.func) or "").endswith("delayed")
+            and task.func.args and isinstance(sc.elt, ast.Call) and isinstance(pg.target, ast.Name) and isinstance(sg.target, ast.Name)):
+        return None
+    pitem = ast.Call(func=task.func.args[0], args=task.args, keywords=task.keywords)
+    sitem = sc.elt
+    out = []
+    if astq.canon(pg.iter) != astq.canon(sg.iter) or [astq.canon(x) for x in pg.ifs] != [astq.canon(x) for x in sg.ifs]:
+        out.append("parallel iterates `%s`, sequential iterates `%s`" % (ast.unparse(pg.iter), ast.unparse(sg.iter)))
+    if astq.canon(pitem.func) != astq.canon(sitem.func):
+        out.append("parallel calls `%s`, sequential calls `%s`" % (ast.unparse(pitem.func), ast.unparse(sitem.func)))
+        return out
+    sig = None
+    d = dotted(pitem.func)
+    sym = repo.resolve_dotted(m, d) if d and d.split(".")[0] not in scope.bound_names(fn) else None
+    if sym is not None and sym.kind == "func":
+        sig = sym.target
+    else:
+        for n in ast.walk(fn):
+            if isinstance(n, ast.FunctionDef) and n is not fn and n.name == d:
+                sig = n
+    ren_p, ren_s = {pg.target.id: "$v"}, {sg.target.id: "$v"}
+
+    def bound(call, ren):
+        if sig is not None:
+            b = astq.bind_call(sig, call)
+            if b is not None and not any(k in b for k in ("*", "**", "*extra", "**extra", "!unknown")):
+                res = {p: astq.canon(v, ren) for p, v in b.items()}
+                for p, dv in astq.param_defaults(sig).items():
+                    res.setdefault(p, astq.canon(dv))
+                return res
+        res = {i: astq.canon(a, ren) for i, a in enumerate(call.args)}
+        res.update({k.arg: astq.canon(k.value, ren) for k in call.keywords})
+        return res
+
+    bp, bs = bound(pitem, ren_p), bound(sitem, ren_s)
+    for p in sorted(set(bp) | set(bs), key=str):
+        if bp.get(p) != bs.get(p):
+            out.append("argument `%s`: parallel passes `%s`, sequential passes `%s`" % (p, bp.get(p, "<missing>"), bs.get(p, "<missing>")))
+    return out
 
 
 def _flatten(stmts):
